@@ -99,9 +99,18 @@ def regenerate():
     if rc != 0:
         raise MachineryError('gen/extract.py failed:\n' + out)
     try:
-        return json.loads(out.strip().splitlines()[-1])
+        info = json.loads(out.strip().splitlines()[-1])
     except Exception:
-        return {}
+        info = {}
+    # second translator: the computational kernels, source -> lean/Asn1/GenKernels.lean
+    rc, out = run([sys.executable, os.path.join(VERIF, 'gen', 'py2lean.py')], cwd=VERIF)
+    if rc != 0:
+        raise MachineryError('gen/py2lean.py failed:\n' + out)
+    try:
+        info['kernels'] = json.loads(out.strip().splitlines()[-1]).get('kernels', {})
+    except Exception:
+        info['kernels'] = {}
+    return info
 
 
 def lake_build(targets):
@@ -366,6 +375,7 @@ def prove(report, prop_module=None):
     prop_module = prop_module or ('Props.' + report.prop)
     info = regenerate()
     report.drift = info.get('drift', [])
+    report.kernel_status = info.get('kernels', {})
     ok, log = lake_build([prop_module, 'driver'])
     report.build_log_tail = log[-6000:]
     path = os.path.join(LEAN, prop_module.replace('.', '/') + '.lean')
